@@ -2,7 +2,7 @@
 # usage: tools/evalmut.sh <dir-with patch.diff+demo.py> CNN [more CNN...]
 # Confirms the seeded change (tests pass, demo fails with it / passes without), then runs the
 # given checks (quick tier) against a scratch worktree with the change applied.
-D=$1; shift
+D=$(cd "$1" && pwd); shift
 WT=$(mktemp -d /tmp/ptera-ev-XXXXXX)
 DEMO=$(mktemp -d /tmp/ptera-demo-XXXXXX)
 trap 'git -C /repo worktree remove --force "$WT" >/dev/null 2>&1; rm -rf "$WT" "$DEMO"' EXIT
